@@ -3,9 +3,13 @@ import common
 
 t0 = time.time()
 try:
-    common.build_coq()
+    res = common.build_coq()
 except common.BuildError as e:
     print(e)
+    sys.exit(1)
+if res["broken"]:
+    for f, why in sorted(res["broken"].items()):
+        print("BROKEN:", f, "--", why[:300])
     sys.exit(1)
 probs = common.audit_sources()
 for p in probs:
